@@ -41,6 +41,7 @@ type Run struct {
 	nontriv map[string]bool
 	rule    string
 	notes   []string
+	t0      time.Time
 }
 
 func (r *Run) Thorough() bool { return r.Tier == "thorough" }
@@ -107,7 +108,18 @@ func (r *Run) Note(s string) {
 	r.notes = append(r.notes, s)
 }
 
+// Abort writes the result as it stands and ends the process (used when a verdict is established and going on would only
+// burn time, e.g. a reader that has started to thrash the collector).
+func (r *Run) Abort() {
+	r.Note("run aborted early after an established violation")
+	r.finish(time.Since(r.t0).Seconds())
+	os.RemoveAll(scratchRoot)
+	os.Exit(0)
+}
+
 func (r *Run) finish(wall float64) {
+	r.mu.Lock()
+	defer r.mu.Unlock()
 	must(os.WriteFile(filepath.Join(r.OutDir, "ops.txt"), []byte(joinLines(r.ops)), 0644))
 	must(os.WriteFile(filepath.Join(r.OutDir, "impl.txt"), []byte(joinLines(r.impl)), 0644))
 	keys := make([]string, 0, len(r.dist))
@@ -224,6 +236,7 @@ func main() {
 	r := &Run{Prop: *prop, Tier: *tier, Seed: *seed, OutDir: *out, Rng: rand.New(rand.NewSource(*seed)),
 		dist: map[string]int{}, nontriv: map[string]bool{}}
 	t0 := time.Now()
+	r.t0 = t0
 	code := 0
 	func() {
 		defer func() {
